@@ -1,79 +1,132 @@
 ---------------------------- MODULE HotStuffAbs ----------------------------
 (* The HotStuff-family protocol without message passing: a global block tree, the votes every   *)
-(* replica has cast, per-replica lock / last-voted view, timeouts.  It abstracts HotStuff (the    *)
-(* replica model) and Trace_P: a block exists once a leader proposed it, a block is certified      *)
-(* when a quorum (Byzantine replicas included) voted for it, and a replica "commits" what its      *)
-(* commit rule yields on the certified part of the tree.  Small enough to exhaust 6-7 views with    *)
-(* an equivocating Byzantine leader; used for C01 (agreement) and C03 (vote discipline) in depth.   *)
+(* honest replica has cast, per-replica lock / last-voted view.  A block exists once a leader      *)
+(* proposed it on top of a certified block, a block is certified when a quorum (Byzantine replicas *)
+(* included, they sign everything) voted for it, and a block is committed when the commit rule     *)
+(* holds on the certified part of the tree.                                                       *)
 (*                                                                                                *)
-(* Rules are the code's (protocol/rules/*.go) after the fixes: VoteRule / lock update / CommitRule  *)
-(* as in module Rules, proposals accepted only if parent = certified block and view higher (D8).    *)
-EXTENDS Integers, FiniteSets, Sequences, TLC
-CONSTANTS N, Byz, MaxView, MaxBlocksPerView, Ruleset, LockRule
+(* Rules are the code's (protocol/rules/*.go, protocol/consensus/voter.go) after the fixes:        *)
+(* Voter.Verify (view above the last voted view, parent = certified block, view higher),           *)
+(* VoteRule / lock update / CommitRule as in module Rules.                                         *)
+(*                                                                                                *)
+(* Three uses:                                                                                     *)
+(*   1. TLC checks Agreement and OneVotePerView exhaustively for small bounds (C01, C03).          *)
+(*   2. Weak # "none" switches one rule to a deliberately weakened form.  TLC must refute          *)
+(*      Agreement (negative control), and every violating behaviour it finds is written out as an  *)
+(*      attack script that the Go driver (hsverif attack) plays against real replicas with a       *)
+(*      Byzantine leader: on code that enforces the rule the script gets stuck, on code with the   *)
+(*      weakness the real ledgers diverge and Trace_P reports it.                                  *)
+(*   3. Behaviours of the correct model are sampled and replayed too: the real replicas must       *)
+(*      follow every step (spec -> code conformance).                                              *)
+EXTENDS Integers, FiniteSets, Sequences, TLC, Json
+CONSTANTS N, Byz, MaxView, MaxBlocksPerView, Ruleset,
+          Weak,        \* "none" or the name of a weakened rule
+          Prefix,      \* number of initial views that ran fault-free (everybody voted for one chain)
+          EquivViews,  \* views in which the (Byzantine) leader may propose more than one block
+          DumpEvery    \* 0 = no dump; k > 0: print about one in k of the complete behaviours of the model
 Replicas == 1..N
 Honest == Replicas \ Byz
 F == (N - 1) \div 3
 Q == (N + F + 2) \div 2
 
-\* a block: [view, parent, k] (k distinguishes equivocating blocks of one view); genesis = [view 0]
-Genesis == [view |-> 0, parent |-> 0, k |-> 0]
-VARIABLES blocks, votes, lock, lastVoted
-vars == <<blocks, votes, lock, lastVoted>>
-\* blocks are identified by <<view, k>>; parent is the id of the certified block it extends
-Id(b) == <<b.view, b.k>>
+\* blocks are identified by <<view, k>> (k distinguishes equivocating blocks of one view); parent[id] is the id of
+\* the certified block it extends (= the block its QC certifies, Voter.Verify enforces it)
+VARIABLES blocks,      \* function id -> parent id
+          votes,       \* votes[r]: ids the honest replica r voted for
+          lock, lastVoted,
+          cur,         \* view-ordered exploration: the view whose proposals / votes are being explored
+          hist         \* output only: the actions so far
+vars == <<blocks, votes, lock, lastVoted, cur, hist>>
+view == <<blocks, votes, lock, lastVoted, cur>>
 GenesisId == <<0, 0>>
-BlockOf(id) == IF id = GenesisId THEN Genesis ELSE CHOOSE b \in blocks : Id(b) = id
-ParentId(id) == BlockOf(id).parent
+Ids == DOMAIN blocks
 ViewOf(id) == id[1]
-Voters(id) == {r \in Honest : id \in votes[r]} \cup Byz          \* Byzantine replicas vote for everything
+ParentId(id) == IF id = GenesisId THEN GenesisId ELSE blocks[id]
+Voters(id) == {r \in Honest : id \in votes[r]} \cup Byz
 Certified(id) == id = GenesisId \/ Cardinality(Voters(id)) >= Q
 RECURSIVE Ancestor(_, _)
 Ancestor(a, b) == IF ViewOf(b) <= ViewOf(a) THEN a = b ELSE Ancestor(a, ParentId(b))   \* a on b's parent chain (or equal)
 Conflict(a, b) == ~Ancestor(a, b) /\ ~Ancestor(b, a)
-Direct(child, par) == ParentId(child) = par /\ ViewOf(child) = ViewOf(par) + 1
+Direct(child, par) == child # GenesisId /\ ParentId(child) = par /\ ViewOf(child) = ViewOf(par) + 1
 
-Init == blocks = {} /\ votes = [r \in Replicas |-> {}] /\ lock = [r \in Replicas |-> GenesisId] /\ lastVoted = [r \in Replicas |-> 0]
+\* the block a replica locks on when it processes block id: the parent of the block certified by id's QC
+TwoChainHead(id) == ParentId(ParentId(id))
+NewLock(r, id) ==
+    CASE Weak = "regress" -> TwoChainHead(id)                                            \* lock not monotone
+      [] Weak = "nolockupdate" -> lock[r]
+      [] OTHER -> IF ViewOf(TwoChainHead(id)) > ViewOf(lock[r]) THEN TwoChainHead(id) ELSE lock[r]
+SafeToVote(r, id) ==
+    CASE Weak = "nolock" -> TRUE
+      [] Ruleset = "chained" -> \/ ViewOf(ParentId(id)) > ViewOf(lock[r])          \* liveness: certified block newer than the lock
+                                \/ (Weak # "liveonly" /\ Ancestor(lock[r], id))        \* safety: extends the lock
+      [] Ruleset = "simple" -> ViewOf(ParentId(id)) >= ViewOf(lock[r])
+FreshView(r, id) == IF Weak = "revote" THEN ViewOf(id) >= lastVoted[r] ELSE ViewOf(id) > lastVoted[r]
 
-\* a leader (honest or not) proposes a block for view v on top of a certified block; a Byzantine leader may
-\* propose several blocks for the same view (equivocation)
+\* ---- initial state: Prefix fault-free views ------------------------------------------------------
+PrefixId(i) == IF i = 0 THEN GenesisId ELSE <<i, 1>>
+InitLock == IF Prefix >= 3 THEN PrefixId(Prefix - 2) ELSE GenesisId
+Init == /\ blocks = [id \in {PrefixId(i) : i \in 1..Prefix} |-> PrefixId(id[1] - 1)]
+        /\ votes = [r \in Honest |-> {PrefixId(i) : i \in 1..Prefix}]
+        /\ lock = [r \in Honest |-> InitLock]
+        /\ lastVoted = [r \in Honest |-> Prefix]
+        /\ cur = Prefix + 1
+        /\ hist = <<>>
+
 Propose(v, p, k) ==
     /\ v \in 1..MaxView /\ k \in 1..MaxBlocksPerView
-    /\ (p = GenesisId \/ \E b \in blocks : Id(b) = p) /\ Certified(p) /\ ViewOf(p) < v
-    /\ ~\E b \in blocks : Id(b) = <<v, k>>
-    /\ (k > 1 => \E b \in blocks : Id(b) = <<v, k - 1>>)
-    /\ blocks' = blocks \cup {[view |-> v, parent |-> p, k |-> k]}
+    /\ p \in Ids \cup {GenesisId} /\ Certified(p) /\ ViewOf(p) < v
+    /\ <<v, k>> \notin Ids
+    /\ (k > 1 => <<v, k - 1>> \in Ids)
+    /\ blocks' = [id \in Ids \cup {<<v, k>>} |-> IF id = <<v, k>> THEN p ELSE blocks[id]]
+    /\ hist' = Append(hist, <<"P", v, k, p[1], p[2]>>)
     /\ UNCHANGED <<votes, lock, lastVoted>>
 
-\* the two-chain head a replica locks on when it processes block id: b'' = parent, b' = parent of b''
-TwoChainHead(id) == IF id = GenesisId \/ ParentId(id) = GenesisId THEN GenesisId ELSE ParentId(ParentId(id))
-SafeToVote(r, id) ==
-    CASE Ruleset = "chained" -> \/ ViewOf(ParentId(id)) > ViewOf(lock[r])          \* liveness: certified block newer than the lock
-                                \/ Ancestor(lock[r], id)                            \* safety: extends the lock
-      [] Ruleset = "simple" -> ViewOf(ParentId(id)) >= ViewOf(lock[r])
-      [] Ruleset = "nolock" -> TRUE                                                  \* negative control
 Vote(r, id) ==
-    /\ r \in Honest /\ \E b \in blocks : Id(b) = id
-    /\ ViewOf(id) > lastVoted[r]
+    /\ r \in Honest /\ id \in Ids
+    /\ FreshView(r, id)
     /\ SafeToVote(r, id)
     /\ votes' = [votes EXCEPT ![r] = @ \cup {id}]
     /\ lastVoted' = [lastVoted EXCEPT ![r] = ViewOf(id)]
-    /\ lock' = [lock EXCEPT ![r] = IF LockRule /\ ViewOf(TwoChainHead(id)) > ViewOf(@) THEN TwoChainHead(id) ELSE @]
+    /\ lock' = [lock EXCEPT ![r] = NewLock(r, id)]
+    /\ hist' = Append(hist, <<"V", r, id[1], id[2]>>)
     /\ UNCHANGED blocks
-\* a replica's timer fires: it stops voting in that view
-Timeout(r, v) == /\ r \in Honest /\ v \in 1..MaxView /\ v > lastVoted[r]
-                 /\ lastVoted' = [lastVoted EXCEPT ![r] = v] /\ UNCHANGED <<blocks, votes, lock>>
-Next == \/ \E v \in 1..MaxView, k \in 1..MaxBlocksPerView : \E p \in {GenesisId} \cup {Id(b) : b \in blocks} : Propose(v, p, k)
-        \/ \E r \in Honest : \E b \in blocks : Vote(r, Id(b))
-        \/ \E r \in Honest, v \in 1..MaxView : Timeout(r, v)
+
+\* unordered next-state relation (the protocol)
+Next == \/ \E v \in 1..MaxView, k \in 1..MaxBlocksPerView : \E p \in Ids \cup {GenesisId} : Propose(v, p, k) /\ UNCHANGED cur
+        \/ \E r \in Honest : \E id \in Ids : Vote(r, id) /\ UNCHANGED cur
 Spec == Init /\ [][Next]_vars
 
+\* ---- view-ordered exploration (partial-order reduction) -----------------------------------------
+\* Every action about a block of view v depends only on actions about blocks of lower views (the parent exists and
+\* is certified by votes for the parent; the replica's own earlier votes are for lower views) and actions of
+\* different replicas commute.  Every behaviour of Spec can therefore be reordered so that all proposals and votes
+\* of view v precede those of view v+1, reaching the same (blocks, votes, lock, lastVoted).  A timer expiry only
+\* disables later votes, so it adds no reachable (blocks, votes).  Agreement and OneVotePerView are monotone
+\* (a violation persists), hence checking them on NextOrdered decides them for Spec within the same bounds.
+\* Honest leaders propose once per view: equivocation (k > 1) is allowed in EquivViews only.
+NextOrdered ==
+    \/ \E k \in 1..MaxBlocksPerView : \E p \in Ids \cup {GenesisId} :
+            (k = 1 \/ cur \in EquivViews) /\ Propose(cur, p, k) /\ UNCHANGED cur
+    \/ \E r \in Honest : \E id \in Ids : ViewOf(id) = cur /\ Vote(r, id) /\ UNCHANGED cur
+    \/ (cur < MaxView /\ cur' = cur + 1 /\ UNCHANGED <<blocks, votes, lock, lastVoted, hist>>)
+SpecOrdered == Init /\ [][NextOrdered]_vars
+
 \* ---- commit rule on the certified tree ---------------------------------------------------------
-\* id is committed when it heads a chain of three directly linked, consecutively numbered certified blocks
+\* id is committed when it is the tail of a chain of three directly linked, consecutively numbered certified blocks
 Committed(id) ==
-    \E b1, b2 \in {Id(b) : b \in blocks} :
-        /\ Direct(b1, id) /\ Direct(b2, b1)
-        /\ Certified(id) /\ Certified(b1) /\ Certified(b2)
-Agreement == \A a, b \in {Id(x) : x \in blocks} : (Committed(a) /\ Committed(b)) => ~Conflict(a, b)
-\* vote discipline (C03) holds by construction of Vote; checked as an invariant over the state
+    /\ id # GenesisId /\ Certified(id)
+    /\ \E b1, b2 \in Ids :
+        CASE Weak = "commit2" -> b2 = b1 /\ Direct(b1, id) /\ Certified(b1)                       \* two-chain commit
+          [] Weak = "nodirect" -> ParentId(b1) = id /\ ParentId(b2) = b1 /\ Certified(b1) /\ Certified(b2)
+          [] OTHER -> Direct(b1, id) /\ Direct(b2, b1) /\ Certified(b1) /\ Certified(b2)
+Agreement == \A a, b \in Ids : (Committed(a) /\ Committed(b)) => ~Conflict(a, b)
 OneVotePerView == \A r \in Honest : \A a, b \in votes[r] : ViewOf(a) = ViewOf(b) => a = b
+
+\* ---- output ----------------------------------------------------------------------------------
+\* Attack generation: explore only while Agreement holds, print the history of every violating state
+Script(kind) == ToJson([kind |-> kind, weak |-> Weak, rs |-> Ruleset, prefix |-> Prefix, n |-> N, ops |-> hist])
+ExploreWhileSafe == Agreement \/ PrintT(<<"SCRIPT", Script("attack")>>)      \* used as an invariant that always holds
+SpecAttack == Init /\ [][Agreement /\ NextOrdered]_vars                     \* no steps out of a violating state
+\* sampled complete behaviours of the model (used with Weak = "none")
+DumpSample == (DumpEvery > 0 /\ cur = MaxView /\ RandomElement(1..DumpEvery) = 1) => PrintT(<<"SCRIPT", Script("follow")>>)
 =============================================================================
